@@ -15,12 +15,17 @@ from unittest import mock
 
 from vlib import core, corr
 
+GENERATORS = ["c17_bits", "c17_blocks"]
 DEPENDS = ["Base", "Tok", "RangeSet", "Codec", "Varint", "AckFrame", "Header", "TParams", "TlsCodec", "C17"]
 TRUSTED_BASE = [
     "extraction (ExtrOcamlBasic only; Z kept as the extracted inductive) + coq/extract/driver.ml for running the models",
     "correspondence harness harness/props/c17.py + harness/vlib/corr.py (decides what 'agree' means)",
-    "modelled, not verified: _buffer.c push/pull (C integer truncation written as mod 2^k, | of disjoint bit ranges as +), "
-    "packet.py / packet_builder.py / tls.py codecs as Gallina functions over byte lists; a Buffer being read is its remaining suffix",
+    "modelled, not verified: packet.py / packet_builder.py / tls.py codecs as Gallina functions over byte lists; a Buffer being read is "
+    "its remaining suffix.  The shift/mask/or expressions, bounds checks and comparisons of the ten integer codecs of _buffer.c are "
+    "translated from the C text (tools/gen/c17_bits.py -> gen/C17Bits.v) and PROVED equal to the arithmetic models (c_*_is_model); "
+    "trusted there: the C typing rules the translator implements (integer promotion, usual arithmetic conversions, wrap modulo 2^N on "
+    "conversion to uintN_t), LP64, PyArg formats B/H/I/K reducing modulo 2^N",
+    "tools/gen/c17_blocks.py: AST template match of tls.pull_block / pull_list / pull_opaque; only the two comparison operators are read",
     "Retry integrity tag (AES-128-GCM) and os.urandom are inputs of the model, computed by the harness",
     "ipaddress text conversion of preferred_address and str<->ascii conversion of TLS names are outside the model (compared as bytes)",
 ]
